@@ -25,8 +25,8 @@ theorem tie_transactOnConn_sem (f : Faults) (b : Body) :
   unfold transactOnConn transactOnce
   generalize (runBody b).1 = evs
   generalize (runBody b).2 = out
-  obtain ⟨bg, cm, rb, bc, cp, rp⟩ := f
-  cases hg : Faults.givesUp ⟨bg, cm, rb, bc, cp, rp⟩ <;>
+  obtain ⟨bg, cm, rb, bc, cp, rp, cc, rc⟩ := f
+  cases hg : Faults.givesUp ⟨bg, cm, rb, bc, cp, rp, cc, rc⟩ <;>
   cases bg <;> cases cp <;> cases rp <;> cases out <;>
     simp [transactOnConnBlk, run, outcome, assign, doInit, evalCond, doRet, callBody, fmtErr, argVal, Err.of, hg,
       badPrefix_append] <;> cases cm <;> cases rb <;> simp
